@@ -30,8 +30,13 @@ def recorded(sess, kind):
     return set(sess[kind + "s"] or [])
 
 
+def addr_of(prefix, peer):
+    """peers 4..7 are the harness's alias sockets: the address of peer k-4, source port 9805"""
+    return "%s%d:%d" % (prefix, 10 + peer % 4, 8805 if peer < 4 else 9805)
+
+
 def key_of(prefix, peer, seq):
-    return "%s%d:8805-%d" % (prefix, 10 + peer, seq)
+    return "%s-%d" % (addr_of(prefix, peer), seq)
 
 
 def rx_entry(dump, key):
@@ -101,6 +106,7 @@ def mon_c04(case, obs, prefix):
     bad = []
     deleted = set()    # ghost: SEIDs whose Deletion Request was accepted and which no establishment has been given since
     limbo = set()      # SEIDs whose deletion was aborted by a scripted driver panic: outside the rule
+    pending = {}       # (peer, sequence number) -> UP SEID the Session Report Request sent there was about
     for i, ev, o, prev, prev_dp, dup in walk(case, obs, prefix):
         if ev["t"] == "recv" and not dup and o.get("panicked") and ev["msg"]["k"] == "est":
             deleted.clear()     # an establishment aborted by a panic may have taken a released SEID without ever answering
@@ -134,6 +140,34 @@ def mon_c04(case, obs, prefix):
                 bad.append((i, "released slot %d is not on the free list" % (idx + 1)))
             if s is not None and s["lid"] != idx + 1:
                 bad.append((i, "slot %d holds session with SEID %d" % (idx + 1, s["lid"])))
+        # a live SEID stops resolving only at an event that ends ITS session: a Deletion Request addressed to it, a
+        # re-association (C05 judges which sessions that may be), or a SEID-0 answer to the report that was about it
+        if ev["t"] == "report":
+            s0 = live(prev, ev["seid"])
+            for x in o["sends"] or []:
+                if x["type"] == "srreq" and s0 is not None:
+                    pending[(x["dst"], x["seq"])] = (ev["seid"], s0["rid"])
+        vanished = [idx + 1 for idx, s in enumerate(prev.get("slots") or []) if s is not None and live(d, idx + 1) is None]
+        if vanished and not o.get("panicked"):
+            k = ev["msg"]["k"] if ev["t"] == "recv" else None
+            if k == "del":
+                allowed = {ev["msg"]["seid"]}
+            elif k == "asr":
+                allowed = None
+            elif k == "srr" and ev["msg"].get("hdr") == 0:
+                about, rid0 = pending.get((ev["peer"], ev["seq"]), (None, None))
+                s0 = live(prev, about) if about is not None else None
+                if s0 is not None and s0["rid"] != rid0:
+                    s0 = None       # the SEID was released and issued again since: which session the answer ends is C05's matter
+                twin = s0 is not None and any(x is not None and x["lid"] != about and x["rid"] == s0["rid"] and x["node"] == s0["node"]
+                                              for x in (prev.get("slots") or []))
+                allowed = None if (s0 is None or twin) else {about}
+            else:
+                allowed = set()
+            for g in vanished:
+                if allowed is not None and g not in allowed:
+                    bad.append((i, "live SEID %d stopped resolving at an event that does not end its session (%s)"
+                                   % (g, "SEID-0 answer to the report about session %s" % sorted(allowed) if k == "srr" else (k or ev["t"]))))
         if ev["t"] != "recv" or dup:
             continue
         m = ev["msg"]
@@ -201,7 +235,7 @@ def srr_must_end(case, obs, prefix):
                 # "peer" as the implementation matches it: the address the session's association was set up from (after a
                 # re-keying takeover the node id names another peer than that address: outside this rule)
                 node = [n for n in (prev.get("nodes") or []) if s is not None and n["obj"] == s["node"]]
-                same_addr = bool(node) and node[0]["addr"] == "%s%d:8805" % (prefix, 10 + ev["peer"])
+                same_addr = bool(node) and node[0]["addr"] == addr_of(prefix, ev["peer"])
                 if ev["msg"]["hdr"] == 0 and s is not None and not twins and same_addr and _owner_peer(prev, s, prefix) == ev["peer"]:
                     if live(o["dump"], lid) is not None:
                         bad.append((i, "peer %d answered the report about session %d with SEID 0: the session is still there" % (ev["peer"], lid)))
@@ -442,7 +476,7 @@ def mon_c05(case, obs, prefix):
                         bad.append((i, "SEID-0 report response removed %d sessions" % len(gone)))
                     for g in gone:
                         node = [n for n in prev["nodes"] or [] if n["obj"] == pslots[g - 1]["node"]]
-                        if not node or node[0]["addr"] != "%s%d:8805" % (prefix, 10 + ev["peer"]):
+                        if not node or node[0]["addr"] != addr_of(prefix, ev["peer"]):
                             bad.append((i, "SEID-0 report response from peer %d removed session %d of another peer" % (ev["peer"], g)))
                     addressed = set(gone)
                 else:
@@ -1101,7 +1135,35 @@ def directed_c05(rnd):
             _rc(1, 5, {"k": "mod", "seid": 1, "nid": {"absent": True}, "ops": {"cFAR": [5]}}),
             _rc(0, 6, {"k": "mod", "seid": 2, "nid": {"absent": True}, "ops": {"cFAR": [6]}}),
             _rc(0, 7, {"k": "del", "seid": 3})]}
-        for d1, d2 in ((1, 2), (3, 2))]
+        for d1, d2 in ((1, 2), (3, 2))] + directed_alias(rnd)
+
+
+def directed_alias(rnd):
+    """two control-plane nodes behind ONE IP address (peer 0 on port 8805, alias peer 4 on port 9805), both using the same
+    control-plane SEID; the session of the node on port 8805 has the HIGHER user-plane SEID and its report is answered with
+    header SEID 0: exactly that session goes, the twin of the node on the other port stays and keeps resolving. Also a
+    duplicate of a request from the other port of the same address is a first copy, not a retransmission."""
+    dld = {"t": "report", "seid": 2, "items": [{"dld": {"pdr": 1, "action": 12, "pkt": "aabb"}}], "fail": [], "usage": []}
+    return [{"maxretrans": 1, "txseq0": 0, "events": [
+        _rc(4, 1, {"k": "asr", "nid": {"v": 1}}), _rc(0, 1, {"k": "asr", "nid": {"v": 0}}),
+        _rc(4, 2, {"k": "est", "nid": {"v": 1}, "fseid": {"v": cp}, "ops": {"cFAR": [1]}}),
+        _rc(0, 2, {"k": "est", "nid": {"v": 0}, "fseid": {"v": cp}, "ops": {"cFAR": [1]}}),
+        dld,
+        {"t": "recv", "peer": 0, "seq": 0, "msg": {"k": "srr", "hdr": 0}, "fail": [], "usage": []},
+        _rc(4, 3, {"k": "mod", "seid": 1, "nid": {"absent": True}, "ops": {"cFAR": [2]}}),
+        _rc(0, 3, {"k": "mod", "seid": 2, "nid": {"absent": True}, "ops": {"cFAR": [3]}}),
+        _rc(4, 4, {"k": "del", "seid": 1})]} for cp in (77, 5)] + [
+        # the alias peer answers (wrong port: matches no outstanding request), then the right one
+        {"maxretrans": 1, "txseq0": 3, "events": [
+        _rc(4, 1, {"k": "asr", "nid": {"v": 1}}), _rc(0, 1, {"k": "asr", "nid": {"v": 0}}),
+        _rc(4, 2, {"k": "est", "nid": {"v": 1}, "fseid": {"v": 9}, "ops": {"cFAR": [1]}}),
+        _rc(0, 2, {"k": "est", "nid": {"v": 0}, "fseid": {"v": 9}, "ops": {"cFAR": [1]}}),
+        dld,
+        {"t": "recv", "peer": 4, "seq": 3, "msg": {"k": "srr", "hdr": 0}, "fail": [], "usage": []},
+        _rc(0, 2, {"k": "est", "nid": {"v": 0}, "fseid": {"v": 9}, "ops": {"cFAR": [1]}}),
+        _rc(4, 2, {"k": "est", "nid": {"v": 1}, "fseid": {"v": 9}, "ops": {"cFAR": [1]}}),
+        {"t": "recv", "peer": 0, "seq": 3, "msg": {"k": "srr", "hdr": 0}, "fail": [], "usage": []},
+        _rc(4, 3, {"k": "mod", "seid": 1, "nid": {"absent": True}, "ops": {"cFAR": [2]}})]}]
 
 
 def _usa(seid, urr, val):
@@ -1139,7 +1201,7 @@ def directed_c04(rnd):
         _rc(0, 7, {"k": "del", "seid": 1}),
         _rc(0, 8, {"k": "est", "nid": {"v": 0}, "fseid": {"v": 12}, "ops": {"cFAR": [1]}}),
         _rc(0, 9, {"k": "asr", "nid": {"v": 0}}),
-        _rc(0, 10, {"k": "mod", "seid": 2, "nid": {"absent": True}, "ops": {"cFAR": [4]}})]}]
+        _rc(0, 10, {"k": "mod", "seid": 2, "nid": {"absent": True}, "ops": {"cFAR": [4]}})]}] + directed_alias(rnd)
 
 
 def directed_c10(rnd):
